@@ -200,10 +200,13 @@ class C03(core.Check):
         cases: List[dict] = []
         for _ in range(n):
             cases.append(self._gen_chop(rng))
-        for _ in range(n // 10):
+        cases.extend(self._boundary_list())
+        for _ in range(n // 20):
             cases.append(self._gen_boundary(rng))
         for _ in range(n // 10):
             cases.append(self._gen_grading(rng))
+        for _ in range(n // 3):
+            cases.append(self._gen_rel(rng))
         if tier == "thorough":
             cases.extend(self._exhaustive())
         return cases
@@ -323,6 +326,78 @@ class C03(core.Check):
                 g = {which: c}
         return {"kind": "chop", "L": L, "given": g}
 
+    @staticmethod
+    def _boundary_list() -> List[dict]:
+        """the boundary stream, enumerated: every guard from both sides of its threshold, with every partner"""
+        out: List[dict] = []
+        partners = [{}, {"count": 5}, {"c2c_expansion": 1.1}, {"c2c_expansion": 0.9}, {"total_expansion": 2.0}, {"total_expansion": 0.5}]
+        for L in (1.0, 40.0):
+            for key in ("start_size", "end_size"):
+                other = "end_size" if key == "start_size" else "start_size"
+                for val in (0.0, -0.1 * L, -2 * L, 0.13 * L):
+                    for p in partners + [{other: 0.1 * L}]:
+                        out.append({"kind": "chop", "L": L, "given": {**p, key: val}, "boundary": True})
+                for n in (1, 2, 7):
+                    for val in (L, 1.5 * L, L * (1 + 1e-3), L * (1 - 1e-3)):
+                        out.append({"kind": "chop", "L": L, "given": {"count": n, key: val}, "boundary": True})
+            for key in ("c2c_expansion", "total_expansion"):
+                other = "total_expansion" if key == "c2c_expansion" else "c2c_expansion"
+                for p in [{}, {"count": 5}, {"count": 1}, {"start_size": 0.1 * L}, {"end_size": 0.1 * L}, {other: 1.5}]:
+                    out.append({"kind": "chop", "L": L, "given": {**p, key: 0.0}, "boundary": True})
+            for c in (0, -3, 1):
+                for p in [{}, {"start_size": 0.1 * L}, {"end_size": 0.1 * L}, {"c2c_expansion": 1.1}, {"total_expansion": 2.0}]:
+                    out.append({"kind": "chop", "L": L, "given": {**p, "count": c}, "boundary": True})
+        for L in (0.0, -1.0):
+            for g in ({"count": 3}, {"start_size": 0.1}, {"end_size": 0.1}, {"count": 3, "start_size": 0.1}, {"count": 3, "end_size": 0.1},
+                      {"count": 3, "c2c_expansion": 1.1}, {"count": 3, "total_expansion": 2.0}, {"start_size": 0.1, "end_size": 0.2},
+                      {"start_size": 0.1, "c2c_expansion": 1.1}, {"start_size": 0.1, "total_expansion": 2.0},
+                      {"end_size": 0.1, "c2c_expansion": 1.1}, {"end_size": 0.1, "total_expansion": 2.0},
+                      {"c2c_expansion": 1.1, "total_expansion": 2.0}):
+                out.append({"kind": "chop", "L": L, "given": dict(g), "boundary": True})
+        return out
+
+    RELS = [
+        "c2c_expansion<count+end_size", "c2c_expansion<count+start_size", "c2c_expansion<count+total_expansion",
+        "count<end_size+c2c_expansion", "count<start_size+c2c_expansion", "count<total_expansion+c2c_expansion",
+        "count<total_expansion+start_size", "end_size<start_size+total_expansion", "start_size<count+c2c_expansion",
+        "start_size<end_size+total_expansion", "total_expansion<count+c2c_expansion", "total_expansion<start_size+end_size",
+    ]
+
+    def _gen_rel(self, rng: random.Random) -> dict:
+        """one direct call of a relation function: in-domain arguments, or one argument on / beyond its guard"""
+        name = rng.choice(self.RELS)
+        out, ins = name.split("<")
+        a, b = ins.split("+")
+        L = self._length(rng)
+        n = rng.choice([rng.randint(1, 200), rng.randint(1, 12)])
+        c = self._ratio(rng)
+        vals = {}
+        for q in (a, b):
+            if q == "count":
+                vals[q] = n
+            elif q in ("c2c_expansion", "total_expansion"):
+                vals[q] = c if rng.random() < 0.7 else self._ratio(rng)
+            else:
+                base = L / gsum(c, n) * (c ** (n - 1) if q == "end_size" else 1.0)
+                vals[q] = self._perturb(rng, base) if rng.random() < 0.6 else base * rng.uniform(0.55, 1.0)
+        r = rng.random()
+        if r < 0.25:  # one argument at its guard
+            q = rng.choice([a, b, "L"])
+            if q == "L":
+                L = rng.choice([0.0, -L])
+            elif q == "count":
+                vals[q] = rng.choice([0, 1])
+            elif q in ("c2c_expansion", "total_expansion"):
+                vals[q] = 0.0
+            else:
+                vals[q] = rng.choice([0.0, -vals[q], L, 1.5 * L])
+        if out == "count" and "c2c_expansion" in vals and a != "total_expansion":
+            key = a
+            rr = vals["c2c_expansion"] if key == "start_size" else (1 / vals["c2c_expansion"] if vals["c2c_expansion"] else 1.0)
+            if vals[key] > 0 and L > 0:
+                vals[key] = self._off_limit(rng, L, vals[key], rr)
+        return {"kind": "rel", "name": name, "L": L, "a": vals[a], "b": vals[b]}
+
     def _gen_boundary(self, rng: random.Random) -> dict:
         L = rng.choice([1.0, 0.25, 40.0])
         other = rng.choice(
@@ -381,6 +456,21 @@ class C03(core.Check):
         from classy_blocks.grading.chop import Chop
         from classy_blocks.grading.grading import Grading
 
+        if case["kind"] == "rel":
+            from classy_blocks.grading import relations
+
+            out, ins = case["name"].split("<")
+            a, b = ins.split("+")
+            fn = relations.get_calculation_functions().get(f"get_{out}__{a}__{b}")
+            if fn is None:
+                return {"missing": True}
+            with warnings.catch_warnings():
+                warnings.simplefilter("ignore")
+                try:
+                    ret = fn(case["L"], case["a"], case["b"])
+                    return {"ok": True, "ret": _num(ret), "type": type(ret).__name__}
+                except Exception as e:
+                    return {"ok": False, "err": type(e).__name__, "msg": str(e)[:120]}
         if case["kind"] == "chop":
             L = case["L"]
             try:
@@ -512,6 +602,8 @@ class C03(core.Check):
                 n = int(Fraction(e["ret"]))
                 if abs(float(c) - 1) > LIB_TOL * 1.02 and 0 < n <= 400 and size > 0 and c > 0 and L > 0:
                     cc = c if e["rel"].startswith("count<start") else 1 / c
+                    if cc < 1 and float(size) / (1 - float(cc)) < L * (1 + 1e-6):
+                        continue  # the progression barely reaches the edge: cells of size ~1e-17·L decide the count
                     reqs.append(("count", f"c03.count {size.numerator}/{size.denominator} {cc.numerator}/{cc.denominator} {_rat(L)}"))
         if "inv_init" in impl:
             reqs.append(("inv", f"c03.inv {arg}"))
@@ -526,7 +618,21 @@ class C03(core.Check):
             reqs.append(("inv", f"c03.inv {arg}"))
         return reqs
 
+    def _rel_request(self, case: dict, impl: dict) -> List[Tuple[str, str]]:
+        if impl.get("missing"):
+            return [("rel", f"c03.rel {case['name']} {_rat(case['L'])} {_rat(case['a'])} {_rat(case['b'])} - -")]
+        out, ins = case["name"].split("<")
+        a, _b = ins.split("+")
+        fake = {"log": [{"rel": case["name"], "ret": impl.get("ret") if impl["ok"] else None, "exc": impl.get("err"),
+                         "args": [_num(case["a"]), _num(case["b"])]}]}
+        if self._too_large(fake) or (a == "count" and case["a"] > 1500):
+            return []
+        orc, tol, _ = self._oracle_and_tol(fake)
+        return [("rel", f"c03.rel {case['name']} {_rat(case['L'])} {_rat(case['a'])} {_rat(case['b'])} {orc} {tol}")]
+
     def _tagged(self, case: dict, impl: Any) -> List[Tuple[str, str]]:
+        if case["kind"] == "rel":
+            return self._rel_request(case, impl)
         if case["kind"] == "chop":
             if "ctor" in impl:
                 return []
@@ -618,6 +724,29 @@ class C03(core.Check):
         if any(a == "bad-op" for a in model):
             i = model.index("bad-op")
             return f"model rejects the request as ill-formed: {tagged[i][1][:200]}"
+        if case["kind"] == "rel":
+            if not tagged:
+                return None
+            ans = model[0]
+            if impl.get("missing"):
+                return f"relation {case['name']} is not defined by the implementation, model answers {ans[:80]}"
+            tok = ans.split()
+            if impl["ok"]:
+                if tok[0] != "ok":
+                    return f"{case['name']}({case['L']}, {case['a']}, {case['b']}) = {impl['ret']}, model answers {ans[:120]}"
+                if not isinstance(impl["ret"], str) or not self._close(Fraction(tok[1]), Fraction(impl["ret"]), EPS_CMP):
+                    return f"{case['name']}({case['L']}, {case['a']}, {case['b']}) = {impl['ret']}, model {tok[1][:80]}"
+                return None
+            if tok[0] != "err":
+                return f"{case['name']}({case['L']}, {case['a']}, {case['b']}) raises {impl['err']}, model answers {ans[:120]}"
+            kind = tok[1]
+            if kind.startswith("fail") or kind in ("table", "unmodelled"):
+                return f"{case['name']}: model answers {ans[:120]} (implementation raised {impl['err']})"
+            if kind in ("ValueError", "ZeroDivisionError") and impl["err"] != kind:
+                return f"{case['name']}({case['L']}, {case['a']}, {case['b']}): model expects {kind}, implementation raises {impl['err']}"
+            if kind == "needs-oracle" and case["name"].startswith("count<") and not case["name"].endswith("+start_size"):
+                return f"{case['name']} raised {impl['err']} although the model finds the count computable"
+            return None
         if case["kind"] == "chop":
             for (tag, req), ans in zip(tagged, model):
                 if tag == "init":
@@ -958,7 +1087,83 @@ class C03(core.Check):
                         "observed": T2, "expected": 1 / T})
         return out
 
+    def _oracle_rel(self, case: dict, impl: dict) -> List[dict]:
+        """one relation called directly: guards, sign/finiteness of the result, and the identity it stands for"""
+        name = case["name"]
+        out, ins = name.split("<")
+        a, b = ins.split("+")
+        L = case["L"]
+        x = {a: case["a"], b: case["b"]}
+        res: List[dict] = []
+
+        def bad(clause, what):
+            res.append({"site": f"relations[{name}]:{clause}", "what": f"({L}, {case['a']}, {case['b']}): {what}"})
+
+        if impl.get("missing"):
+            bad("relation-missing", "no such function")
+            return res
+        invalid = None
+        if L <= 0:
+            invalid = "length<=0"
+        for q, v in x.items():
+            if q in ("c2c_expansion", "total_expansion") and v == 0:
+                invalid = f"{q}=0"
+            if q == "count" and v < 1:
+                invalid = "count<1"
+            # the two purely algebraic size conversions do not validate the size they convert
+            if q in ("start_size", "end_size") and v <= 0 and name not in ("start_size<end_size+total_expansion", "end_size<start_size+total_expansion"):
+                invalid = f"{q}<=0"
+        if invalid:
+            if impl["ok"]:
+                bad(f"invalid-argument-accepted:{invalid}", f"returns {impl['ret']}")
+            return res
+        if not impl["ok"]:
+            return res
+        if any(v <= 0 for v in x.values()):
+            return res  # (only the two unvalidated size conversions get here)
+        if not isinstance(impl["ret"], str):
+            bad("result-not-a-finite-number", str(impl["ret"]))
+            return res
+        y = float(Fraction(impl["ret"]))
+        if out == "count":
+            if impl["type"] != "int" or y < 1:
+                bad("count-not-an-integer>=1", f"{impl['type']} {y}")
+            return res
+        if not (math.isfinite(y) and y > 0):
+            bad("result-not-positive", repr(y))
+            return res
+        n = x.get("count")
+        tolu = 1e-8
+        if name == "start_size<count+c2c_expansion":
+            c = x["c2c_expansion"]
+            if abs(y * gsum(c, n) - L) > (tolu + n * min(abs(c - 1), 1.02 * LIB_TOL)) * L:
+                bad("cells-do-not-fill-the-edge", f"start {y}: sum {y * gsum(c, n)}")
+        elif name == "total_expansion<count+c2c_expansion":
+            if abs(math.log(y) - (n - 1) * math.log(x["c2c_expansion"])) > 1e-9 * n:
+                bad("not-c2c^(count-1)", repr(y))
+        elif name == "c2c_expansion<count+total_expansion":
+            if abs((n - 1) * math.log(y) - math.log(x["total_expansion"])) > 1e-9 * n:
+                bad("not-the-(count-1)th-root", repr(y))
+        elif name == "end_size<start_size+total_expansion":
+            if abs(y - x["start_size"] * x["total_expansion"]) > 1e-12 * y:
+                bad("not-start*total", repr(y))
+        elif name == "start_size<end_size+total_expansion":
+            if abs(y * x["total_expansion"] - x["end_size"]) > 1e-12 * x["end_size"]:
+                bad("not-end/total", repr(y))
+        elif name == "total_expansion<start_size+end_size":
+            if abs(y * x["start_size"] - x["end_size"]) > 1e-12 * x["end_size"]:
+                bad("not-end/start", repr(y))
+        elif name in ("c2c_expansion<count+start_size", "c2c_expansion<count+end_size") and n >= 2:
+            size = x[b]
+            tol = tolu + 1.01 * LIB_TOL + 4e-12 * (n - 1) / min(1.0, y)
+            total = size * gsum(y if b == "start_size" else 1 / y, n)
+            if abs(total - L) > tol * L:
+                bad("cells-do-not-fill-the-edge", f"c2c {y}: sum {total}")
+        return res
+
     def oracle(self, case: dict, impl: Any) -> List[dict]:
+        if case["kind"] == "rel":
+            return self._oracle_rel(case, impl)
         if case["kind"] == "chop":
             return self._oracle_chop(case["L"], case["given"], impl, bool(case.get("boundary")))
         out: List[dict] = []
@@ -1018,6 +1223,8 @@ class C03(core.Check):
         return json.dumps(case, sort_keys=True)
 
     def classify(self, case, impl):
+        if case["kind"] == "rel":
+            return f"rel:{case['name']}:" + ("missing" if impl.get("missing") else "ok" if impl["ok"] else impl["err"])
         if case["kind"] == "grading":
             return f"grading:{len(case['chops'])}-chops:" + ("inverted" if "inv" in impl else "error")
         if "ctor" in impl:
